@@ -244,10 +244,19 @@ func (c *child) stray(how string, ty uint8) {
 	}
 	rid := c.nextRid
 	c.nextRid++
-	c.ev(sx.L(sx.Sym("resp"), sx.U(uint64(tag)), sx.U(uint64(ty)), sx.U(uint64(rid))))
-	c.obs(sx.Sym("none"))
-	if !c.send(peer.Reply(tag, ty, rid)) {
-		return
+	// a repeated reply is sent twice: a loop that forgot to release the tag
+	// would deliver the first copy into the (emptied) channel of the call that
+	// has returned and block for ever on the second
+	copies := 1
+	if how == "repeated" {
+		copies = 2
+	}
+	for i := 0; i < copies; i++ {
+		c.ev(sx.L(sx.Sym("resp"), sx.U(uint64(tag)), sx.U(uint64(ty)), sx.U(uint64(rid))))
+		c.obs(sx.Sym("none"))
+		if !c.send(peer.Reply(tag, ty, rid)) {
+			return
+		}
 	}
 	c.replyLive(0, 0, 0)
 }
@@ -521,8 +530,33 @@ func malformed(rng *prng.R, how string, withDecoderDefects bool) []byte {
 		b := append([]byte{}, full[:cut]...)
 		copy(b, le32(uint32(cut)))
 		return b
-	case "tinysize": // size field 0..3 (readmsg: D1)
+	case "tinysize": // size field 0..3 (readmsg, D1)
 		return le32(uint32(rng.Intn(4)))
+	case "baddir": // Rstat whose stat size fields are 0xFFFE / 0xFFFF (DecodeDir, D3)
+		full := peer.Reply(uint16(50000+rng.Intn(10000)), 125, 9)
+		b := append([]byte{}, full...)
+		v := uint16(rng.Pick(0xFFFE, 0xFFFF))
+		switch rng.Intn(3) {
+		case 0: // outer size (body offset 3 = frame offset 7)
+			b[7], b[8] = byte(v), byte(v>>8)
+		case 1: // inner size
+			b[9], b[10] = byte(v), byte(v>>8)
+		default:
+			b[7], b[8], b[9], b[10] = byte(v), byte(v>>8), byte(v), byte(v>>8)
+		}
+		return b
+	case "hugecount": // count / nwqid far beyond the bytes that follow (D4)
+		tag := uint16(50000 + rng.Intn(10000))
+		var body []byte
+		if rng.Bool() { // Rread count[4] data
+			c := uint32(rng.Pick(0xFFFFFFFF, 0xFFFFFFF0, 0x7FFFFFFF, 1<<30, 70000))
+			body = append([]byte{117, byte(tag), byte(tag >> 8)}, le32(c)...)
+		} else { // Rwalk nwqid[2] qids
+			n := uint16(rng.Pick(0xFFFF, 0x8000, 17, 1000))
+			body = []byte{111, byte(tag), byte(tag >> 8), byte(n), byte(n >> 8)}
+		}
+		body = append(body, rng.Bytes(rng.Intn(20))...)
+		return append(le32(uint32(len(body)+4)), body...)
 	}
 	panic("malformed: " + how)
 }
@@ -578,7 +612,7 @@ func genScript(rng *prng.R, i int, decoderDefects bool, deadline bool) script {
 	if rng.Chance(9, 10) {
 		kinds := []string{"close", "close", "ctx", "garbage", "truncated", "badtype", "oversize", "badbody"}
 		if decoderDefects {
-			kinds = append(kinds, "tinysize", "shortbody")
+			kinds = append(kinds, "tinysize", "shortbody", "baddir", "hugecount")
 		}
 		how := kinds[rng.Intn(len(kinds))]
 		f := step{Op: "fail", How: how}
@@ -603,7 +637,8 @@ type scriptResult struct {
 func main() {
 	childFile := flag.String("child", "", "(internal) run the scripts of this file in this process")
 	from := flag.Int("from", 0, "(internal) first script index")
-	decoderDefects := flag.Bool("decoder-defects", false, "also send frames that exercise channel.go/encoding.go decoder defects D1 (size field 0..3)")
+	light := flag.Bool("light", false, "a tenth of the scripts, other seed stream (second run: under the race detector in the thorough tier)")
+	decoderDefects := flag.Bool("decoder-defects", true, "also send the frames that used to crash the reader through channel.go/encoding.go (D1 size field 0..3, D2 body shorter than a header, D3 stat sizes 0xFFFE/0xFFFF, D4 huge counts)")
 	// the child must not call rep.Open (it would create output files)
 	for i, a := range os.Args {
 		if a == "-child" && i+1 < len(os.Args) {
@@ -622,9 +657,13 @@ func main() {
 	r := rep.Open()
 	defer r.Close()
 	r.Samples = []string{}
-	r.Rule = "one script = one client session in a child process against a hostile peer: 0..25 steps (start call / reply right-type, Rerror or wrong type / stray reply with an unissued, repeated, NOTAG or abandoned tag / cancel one call's context), then with 0..16 calls pending one failure (close, ctx, garbage, truncated frame, undecodable type, frame > msize, body shorter than header, inconsistent body) and 1..3 later calls. Non-trivial when the script has a stray reply, a wrong-typed reply, or a failure with >=1 call pending. Distinct by canonical event text."
+	r.Rule = "one script = one client session in a child process against a hostile peer: 0..25 steps (start call / reply right-type, Rerror or wrong type / stray reply with an unissued, repeated, NOTAG or abandoned tag / cancel one call's context), then with 0..16 calls pending one failure (close, ctx, session deadline, garbage, truncated frame, undecodable type, frame > msize, size field 0..6, inconsistent body, stat sizes 0xFFFE/0xFFFF, counts far beyond the input) and 1..3 later calls. Non-trivial when the script has a stray reply, a wrong-typed reply, or a failure with >=1 call pending. Distinct by canonical event text."
 	rng := prng.New(r.Seed)
 	n := r.N(300, 8000)
+	if *light {
+		rng = prng.New(r.Seed + 4242)
+		n = r.N(30, 800)
+	}
 	scripts := make([]script, n)
 	every := n / r.N(6, 40) // this many scripts let a session-context deadline pass (each costs ~1.3 s of waiting)
 	file := r.Out + "/scripts.jsonl"
@@ -643,10 +682,12 @@ func main() {
 	f.Close()
 
 	results := make([]scriptResult, n)
+	raceReported := false
 	crashes := 0
 	next := 0
 	for next < n {
 		cmd := exec.Command(os.Args[0], "-child", file, "-from", fmt.Sprint(next))
+		cmd.Env = append(os.Environ(), "GORACE=exitcode=0") // race reports are read from stderr, not from the exit status
 		stdout, _ := cmd.StdoutPipe()
 		var stderr strings.Builder
 		cmd.Stderr = &limitedWriter{b: &stderr, max: 1 << 16}
@@ -704,6 +745,11 @@ func main() {
 			}
 		}
 		err := cmd.Wait()
+		if msg := stderr.String(); strings.Contains(msg, "DATA RACE") && !raceReported {
+			raceReported = true
+			i := strings.Index(msg, "WARNING: DATA RACE")
+			r.Fail("client:data-race", "the race detector reported a data race in the client process: "+tail(msg[i:], 1500), nil, nil)
+		}
 		if hung {
 			if cur < 0 {
 				cur = next
@@ -735,6 +781,8 @@ func main() {
 			key = "channel.readmsg:panic"
 		case strings.Contains(msg, "DecodeDir") || strings.Contains(msg, "encoding.go"):
 			key = "encoding.decode:panic"
+		case strings.Contains(msg, "out of memory") || strings.Contains(msg, "cannot allocate"):
+			key = "encoding.decode:alloc"
 		case strings.Contains(msg, "DATA RACE"):
 			key = "client:data-race"
 		}
